@@ -16,6 +16,8 @@ inductive PyErr
   | eof | assertion | attribute | memory | mutagen | systemExit | notImplemented | diverge
 deriving DecidableEq, Repr, Inhabited
 
+deriving instance DecidableEq for Except
+
 def PyErr.name : PyErr → String
   | .io => "io" | .enospc => "enospc" | .value => "value" | .key => "key"
   | .type_ => "type" | .index => "index" | .struct_ => "struct" | .unicode => "unicode"
